@@ -16,6 +16,9 @@ func init() { core.Register(c01{}) }
 
 func (c01) ID() string { return "C01" }
 
+// EvalFeatures names the counters of judged executions.
+func (c01) EvalFeatures() []string { return []string{"paths"} }
+
 func (c01) Cases(tier string) int {
 	if tier == "thorough" {
 		return 120000
